@@ -104,7 +104,7 @@ TRANSLATOR = ('translator /verif/translate (Go, go/parser only): closed statemen
               'anything else makes the method opaque and it must then be on the pinned irregular list; its output is validated on every run by decoding and re-encoding Go-produced bytes with the generated shapes')
 META['C11'] = {
   'generated_obligations': _gen_obl,
-  'rule': ('for each wire type (exported EncodeTo/DecodeFrom pairs of types, consensus, rhp/v2, v3, v4; the rhp/v4 RPC objects and the gateway request/response codecs through the verif hooks: 170+ codecs, regenerated list) 60 (thorough 2500) random values by reflection (full-range integers, boundary and maximal currencies, empty/nil collections, byte strings around and above the encoder's 1024-byte buffer, all resolution kinds, random policies incl. thresholds of 31-255 children) plus the zero value: '
+  'rule': ('for each wire type (exported EncodeTo/DecodeFrom pairs of types, consensus, rhp/v2, v3, v4; the rhp/v4 RPC objects and the gateway request/response codecs through the verif hooks: 170+ codecs, regenerated list) 60 (thorough 2500) random values by reflection (full-range integers, boundary and maximal currencies, empty/nil collections, byte strings around and above the 1024-byte buffer of the encoder, all resolution kinds, random policies incl. thresholds of 31-255 children) plus the zero value: '
            'Go decode(encode v) must re-encode to identical bytes, encoding must be deterministic, every proper prefix (all for short encodings, ~150 sampled for long) must fail to decode; '
            'for the types whose shape closure is regular (or recognised: V1Currency, V1SiafundOutput, SpendPolicy; about 150) the extracted model decodes the Go bytes with the *generated decoder shape* and re-encodes with the *generated encoder shape* and must reproduce the bytes, and must reject the same prefixes. '
            'V2TransactionsMultiproof needs proofs valid for one state: generated on synthetic accumulators (round trip + model); consensus.State and ElementAccumulator (irregular layouts) have their encoded length recomputed by the model incl. the pre-genesis state'),
